@@ -37,6 +37,10 @@
 (*     hard error on exact text --, and if the text is finished and        *)
 (*     pinned down, nc = Count(a) -- a last token that only the end of the *)
 (*     text terminates is counted: it must not be lost.                    *)
+(*  L3 (errors are final) a hard error for a prefix that is unfinished in *)
+(*     the automaton (and not "lost") must be the result of every longer  *)
+(*     recorded prefix with the same start: a prefix of an acceptable     *)
+(*     text has to ask for more input, it may not be rejected.            *)
 (*  Results that contain a Go panic are not judged (C01 states them).      *)
 (*                                                                         *)
 (* Named deviations (known findings), enabled by their id in the           *)
@@ -76,7 +80,7 @@ ShardCases(k) == IF NShard = 0 THEN ndJsonDeserialize(IOEnv.VERIF_TRACE)
                  ELSE ndJsonDeserialize(IOEnv.VERIF_TRACE \o ".s" \o ToString(k))
 
 ClassNames == <<"(", ")", "[", "]", "{", "}", "dq", "bs", "bt", "sq",
-               "a", "1", "-", ":", ".", "/", "*", ";", "sp", "nl", "op", "q", "t", ",", "x", "none", "?", "+">>
+               "a", "1", "-", ":", ".", "/", "*", ";", "sp", "nl", "op", "q", "t", ",", "x", "none", "?", "+", "@">>
 StatusNames == <<"more", "done", "err", "panic">>
 (* a case with names instead of numbers *)
 Named(C) == [C EXCEPT !.cls = [k \in 1..Len(C.cls) |-> ClassNames[C.cls[k]]],
@@ -131,9 +135,17 @@ StateTable(C) ==
     [s \in {C.refs[k][1] : k \in 1..Len(C.refs)} |->
         Walk(C.cls, s, {C.refs[k][2] : k \in {l \in 1..Len(C.refs) : C.refs[l][1] = s}})]
 
+(* L3: a rejected unfinished prefix of a text that is not rejected *)
+ErrorRetracted(C, e, ST) ==
+    /\ C.tab[e[3]][1] = "err" /\ ErrorIsFinal(ST[e[1]][e[2]])
+    /\ \E k \in 1..Len(C.refs) :
+          /\ C.refs[k][1] = e[1] /\ C.refs[k][2] > e[2]
+          /\ C.tab[C.refs[k][3]][1] \in {"done", "more"}
+
 RefVerdict(C, e, DOn, ST) ==
     LET r == C.tab[e[3]] IN
     IF r[1] = "panic" THEN -1
+    ELSE IF ErrorRetracted(C, e, ST) THEN Bad
     ELSE LET a == ST[e[1]][e[2]]
              v == Judge(a, r, DOn) IN
          IF v # Bad \/ ~DOn[5] THEN v
